@@ -40,6 +40,10 @@ Theorem C15_crf_decreasing_in_life : forall i n1 n2 : R, (0 < i)%R -> (0 < n1)%R
   (compute_capital_recovery_factor_R i n2 < compute_capital_recovery_factor_R i n1)%R.
 Proof. exact crf_decreasing_in_life. Qed.
 Print Assumptions C15_crf_decreasing_in_life.
+(* the factor is above straight-line repayment 1/n as well: with C15_crf_real_partial it is bracketed below by max(i, 1/n) *)
+Theorem C15_crf_above_straight_line : forall i n : R, (0 < i)%R -> (0 < n)%R -> (/ n < compute_capital_recovery_factor_R i n)%R.
+Proof. exact crf_above_straight_line. Qed.
+Print Assumptions C15_crf_above_straight_line.
 Theorem C15_annual_cost_positive : forall K i n : R, (0 < K)%R -> (0 < i)%R -> (0 < n)%R ->
   (0 < compute_annual_capital_cost_R K i n)%R.
 Proof. exact annual_cost_positive. Qed.
